@@ -301,6 +301,7 @@ func vAgentGen(o *vOut, r *vRand, thorough bool, args []string, emit func(string
 	}
 	nSupersede := r.intn(24)
 	nRenomDir := r.intn(18)
+	nAuto := r.intn(20)
 	for i := 0; i < n && time.Since(t0) < budget; i++ {
 		g := &vGenSess{r: r.fork(), emit: emit, o: o, focus: focus, floods: &floods}
 		singles := 3 // out of 10
@@ -318,6 +319,11 @@ func vAgentGen(o *vOut, r *vRand, thorough bool, args []string, emit func(string
 			g.seq = nRenomDir
 			nRenomDir++
 			g.renomDirected()
+		case (focus == "C20" && i%5 == 3) || ((focus == "C03" || focus == "C04") && i%10 == 7) || (focus != "C01" && focus != "C20" && g.r.chance(1, 30)):
+			// automatic renomination (never for C01): directed, the variants are cycled
+			g.seq = nAuto
+			nAuto++
+			g.autoRenom()
 		case focus == "C20" && g.r.chance(1, 4):
 			g.renomExchange()
 		case ((focus == "C03" || focus == "C06") && g.r.chance(1, 3)) || ((focus == "C20" || focus == "C07") && g.r.chance(1, 6)) || (focus == "" && g.r.chance(1, 30)):
@@ -383,7 +389,14 @@ func (g *vGenSess) double() {
 	g.o.stat("sess.double")
 	g.pickForms()
 	g.pickTCP()
-	g.op("new %s%s %s%s", g.cfg("A", false, renom), g.tcpCfg(), g.cfg("B", liteB, false), g.tcpCfg())
+	// a minority of the renomination sessions (never for C01) lets the controlling agent renominate by itself; now and then the
+	// automatic option is on without WithRenomination (nothing may be issued then)
+	auto := ""
+	if g.focus != "C01" && ((renom && r.chance(1, 4)) || (!renom && r.chance(1, 25))) {
+		auto = fmt.Sprintf(",auto=%d", []int{0, 300, 600, 1000}[r.intn(4)])
+		g.o.stat("sess.double.auto")
+	}
+	g.op("new %s%s%s %s%s", g.cfg("A", false, renom), auto, g.tcpCfg(), g.cfg("B", liteB, false), g.tcpCfg())
 	na, nb := 1+r.intn(3), 1+r.intn(3)
 	if liteB {
 		g.o.stat("sess.liteB")
